@@ -1,4 +1,154 @@
+(* C03 — Contract sector list equals what the signed revision commits to.
+   Statements only; every proof is [exact lemma].  Model: Model.v (the code with
+   fixes/C03-updater-stale-oldroots.patch).
+
+   Vocabulary
+     meta            rhp2.MetaRoot as an arbitrary function of the root list (the operations carry
+                     its values as oracle fields; [disc] says what each oracle field is)
+     disc meta s o   the discipline of the callers (ProofsInv.v): the RHP handlers revise / renew a
+                     v1 contract only under Manager.Lock, with one updater per contract at a time,
+                     only while its revision number is below the maximum, and sign revisions whose
+                     file size and Merkle root are those of the updater's list; contract ids are
+                     unique; a v2 contract has one renewal id.  Never the raw store calls.
+     reach meta s    s is reached from the empty host by a disciplined history (any length, any
+                     number of contracts and updaters, store failures injected at any statement)
+     is_live s id c  c is the row of contract id (v1 or v2) and has not been superseded by a renewal
+     tbl_list (rows c)   the persisted list in root_index order (Store.SectorRoots / V2SectorRoots)
+     cache_get s id      the list served from memory (Manager.SectorRoots) *)
 From HostdBase Require Import Base.
-From HostdRoots Require Import Model.
-Example c03_nonvacuous : fold_upd [1;2]%N [Append 3%N] = Ok [1;2;3]%N.
-Proof. vm_compute; reflexivity. Qed.
+From HostdRoots Require Import Model Lists ProofsReplay ProofsInv ProofsStep ProofsRenew ProofsSpec ProofsTop.
+Open Scope N_scope.
+
+(* Store.ReviseContract's replay of an action list the updater accepted, on a table that
+   equals the updater's old list: exactly the fold of the actions if every sector it needs
+   is stored, a store error (and nothing else) otherwise. *)
+Theorem c03_replay_is_fold : forall stored acts l l',
+  fold_upd l acts = Ok l' ->
+  store_replay stored (tbl_of l) l acts None =
+  if acts_stored stored acts then Ok (tbl_of l', None) else Err EOther.
+Proof. exact replay_char. Qed.
+Print Assumptions c03_replay_is_fold.
+
+Theorem c03_replay_refines_list : forall stored acts l l',
+  fold_upd l acts = Ok l' -> acts_stored stored acts = true ->
+  store_replay stored (tbl_of l) l acts None = Ok (tbl_of l', None).
+Proof. exact replay_refines_list. Qed.
+Print Assumptions c03_replay_refines_list.
+
+(* updateV2ContractSectors: the diff against the old list leaves exactly the new list *)
+Theorem c03_v2_replacement_exact : forall stored old new,
+  all_stored stored new = true ->
+  v2_diff stored (tbl_of old) old new None = Ok (tbl_of new, None).
+Proof. exact v2_diff_correct. Qed.
+Print Assumptions c03_v2_replacement_exact.
+
+Theorem c03_v2_replacement_exact_or_rejected : forall stored old new t k,
+  v2_diff stored (tbl_of old) old new None = Ok (t, k) -> t = tbl_of new /\ k = None.
+Proof. exact v2_diff_ok_inv. Qed.
+Print Assumptions c03_v2_replacement_exact_or_rejected.
+
+(* The invariant: in every reachable state, for every contract that has not been superseded,
+   persisted list = served list, file size = length x sector size and Merkle root = meta of
+   that list, of the latest revision the host signed. *)
+Theorem c03_invariant : forall meta s id c, reach meta s -> is_live s id c ->
+  tbl_list (rows c) = cache_get s id /\
+  fsize c = sector_size * nlen (cache_get s id) /\
+  mroot c = meta (cache_get s id).
+Proof. exact c03_invariant_l. Qed.
+Print Assumptions c03_invariant.
+
+(* ... and that list is the one implied by the accepted modifications: the specification
+   machine [astep] sees only the operations and whether the host accepted them (append, swap,
+   trim, update through updaters committed once or many times; v2 replacement; renewal
+   hand-over) and keeps one plain list per contract. *)
+Theorem c03_lists_are_accepted_modifications : forall meta ops id c,
+  disc_run meta init ops -> is_live (runs init ops) id c ->
+  tbl_list (rows c) = aget (aruns init ainit ops) id /\
+  cache_get (runs init ops) id = aget (aruns init ainit ops) id /\
+  fsize c = sector_size * nlen (aget (aruns init ainit ops) id) /\
+  mroot c = meta (aget (aruns init ainit ops) id).
+Proof. exact c03_spec_l. Qed.
+Print Assumptions c03_lists_are_accepted_modifications.
+
+(* an open updater's working list is the fold of the actions it accepted over the served list *)
+Theorem c03_updater_is_fold : forall meta s u x, reach meta s -> alookup u (upds s) = Some x ->
+  u_old x = cache_get s (u_cid x) /\ fold_upd (u_old x) (u_acts x) = Ok (u_roots x).
+Proof. exact c03_updater_l. Qed.
+Print Assumptions c03_updater_is_fold.
+
+(* A rejected or failed operation (validation error, missing stored sector, store failure)
+   leaves the whole state — lists, revisions, links, cache, updaters — as it was. *)
+Theorem c03_rejected_unchanged : forall s o s' r,
+  step s o = (s', ORes r) -> r <> Ok tt -> s' = s.
+Proof. exact step_error_unchanged. Qed.
+Print Assumptions c03_rejected_unchanged.
+
+Theorem c03_rejected_action_unchanged : forall s u a s' r l,
+  step s (Act u a) = (s', OAct r l) -> r <> Ok tt -> s' = s.
+Proof. exact act_error_unchanged. Qed.
+Print Assumptions c03_rejected_action_unchanged.
+
+(* A store failure injected at any statement k of a commit, v2 revision or renewal: either
+   the statement is never reached (same result as without the failure) or the operation
+   reports the store error and the state is unchanged. *)
+Theorem c03_failure_at_any_statement : forall s o k,
+  match o with
+  | Commit1 u a b c _ =>
+      step s (Commit1 u a b c (Some k)) = step s (Commit1 u a b c None) \/
+      step s (Commit1 u a b c (Some k)) = (s, ORes (Err EOther))
+  | Renew1 a b c d e f g h i j _ =>
+      step s (Renew1 a b c d e f g h i j (Some k)) = step s (Renew1 a b c d e f g h i j None) \/
+      step s (Renew1 a b c d e f g h i j (Some k)) = (s, ORes (Err EOther))
+  | Revise2 a b c d e f _ =>
+      step s (Revise2 a b c d e f (Some k)) = step s (Revise2 a b c d e f None) \/
+      step s (Revise2 a b c d e f (Some k)) = (s, ORes (Err EOther))
+  | Renew2 a b c d e _ =>
+      step s (Renew2 a b c d e (Some k)) = step s (Renew2 a b c d e None) \/
+      step s (Renew2 a b c d e (Some k)) = (s, ORes (Err EOther))
+  | _ => True
+  end.
+Proof. exact fault_any_statement. Qed.
+Print Assumptions c03_failure_at_any_statement.
+
+(* a commit that needs a sector the host does not store is rejected as a whole *)
+Theorem c03_missing_sector_rejected : forall meta s u x nrev nfsize nmroot, reach meta s ->
+  alookup u (upds s) = Some x -> acts_stored (stored (dbs s)) (u_acts x) = false ->
+  step s (Commit1 u nrev nfsize nmroot None) = (s, ORes (Err EOther)).
+Proof. exact c03_commit_missing_l. Qed.
+Print Assumptions c03_missing_sector_rejected.
+
+(* the modifications the updater accepted are accepted by the store when their sectors are
+   stored (so "accepted" is not vacuous), and the served list becomes the updater's *)
+Theorem c03_commit_accepted : forall meta s u x nrev nfsize nmroot, reach meta s ->
+  alookup u (upds s) = Some x -> acts_stored (stored (dbs s)) (u_acts x) = true ->
+  snd (step s (Commit1 u nrev nfsize nmroot None)) = ORes (Ok tt) /\
+  cache_get (fst (step s (Commit1 u nrev nfsize nmroot None))) (u_cid x) = u_roots x.
+Proof. exact c03_commit_accepted_l. Qed.
+Print Assumptions c03_commit_accepted.
+
+Theorem c03_v2_revision_accepted : forall meta s id e c newroots, reach meta s ->
+  alookup id (t2 (dbs s)) = Some e -> rto e = None ->
+  rk e = r2_rk c -> hk e = r2_hk c -> wstart e = r2_ph c -> expi e = r2_exp c ->
+  r2_fsize c = sector_size * nlen newroots -> r2_fsize c <= r2_cap c ->
+  r2_mroot c = meta newroots -> all_stored (stored (dbs s)) newroots = true ->
+  snd (step s (Revise2 id c newroots (meta newroots) true true None)) = ORes (Ok tt) /\
+  cache_get (fst (step s (Revise2 id c newroots (meta newroots) true true None))) id = newroots.
+Proof. exact c03_revise2_accepted_l. Qed.
+Print Assumptions c03_v2_revision_accepted.
+
+(* Restart (reopen the database, NewManager): the database is untouched and every contract that
+   has not been superseded is served the same list. *)
+Theorem c03_restart_same_lists : forall meta s id c, reach meta s -> is_live s id c ->
+  dbs (fst (step s Restart)) = dbs s /\
+  cache_get (fst (step s Restart)) id = cache_get s id /\
+  is_live (fst (step s Restart)) id c.
+Proof. exact c03_restart_l. Qed.
+Print Assumptions c03_restart_same_lists.
+
+(* non-vacuity: a disciplined history with three commits on one updater (one of them hit by
+   a store failure), a renewal, a revision of the successor and a restart *)
+Example c03_nonvacuous :
+  disc_run meta0 init ex_ops /\
+  cache_get (runs init ex_ops) 8 = [1; 3] /\
+  aget (aruns init ainit ex_ops) 8 = [1; 3].
+Proof. exact (conj ex_disc (conj (proj1 ex_final) (proj1 (proj2 ex_final)))). Qed.
